@@ -13,7 +13,7 @@ func init() {
 	registerProperty(&PropertyInfo{
 		ID:    "C11",
 		Title: "No needed file is ever removed; handles and the lock are released",
-		Rules: []string{"C11.R1", "C11.R2", "C02.R2", "C11.R4", "C11.R5", "C11.R6", "C11.R7", "C13.R3"},
+		Rules: []string{"C11.R1", "C11.R2", "C02.R2", "C11.R4", "C11.R5", "C11.R6", "C11.R7", "C11.R8", "C11.R9", "C13.R3"},
 		Decides: "who may remove and under which guard, and acquire/release pairing on all paths: Directory.Remove is called only by the deletion policy's clean-up and by the offline merge behind the successful persist of the merged segment; Commit/Cleanup of the deletion policy are invoked only in the persister goroutine or in OpenWriter before any goroutine starts; in the segment clean-up a Remove is unreachable from a membership hit in any live epoch's segment set without starting the next candidate, candidates enter knownSegmentFiles only in Commit, an id/epoch is forgotten only on the success edge of its Remove, epochs become deletable only behind len(liveEpochs) > n; commit follows the durable snapshot (C02.R2); every closer obtained from Directory.Load and every wrapper obtained from a loading function is closed, returned, or stored into a holder that is itself returned or closed on every path; every snapshot reference obtained inside package index is closed on every path; OpenWriter touches the directory's contents only behind a successful Lock, never unlocks after a failed Lock, and closes (unlocks) on every later error path; Close reaches Unlock on every path; the unix remove unlinks only behind a successful exclusive open. the sender of a merge releases the merged segment when its introduction was skipped; a name is removed (unlink/rename) only in package index on a path where the function holds the file's exclusive lock, or for the writer's own lock file.",
 		NotCovered: "the directory contents over time (which files exist at which instant); flock semantics; Windows sharing semantics beyond the same pairing rules in the thorough tier.",
 	})
@@ -772,14 +772,25 @@ func ruleC11R5(c *Ctx) {
 		}
 		var p2 []string
 		ex2 := s.Explorer(fn)
-		waited := false
+		const (
+			fWaited uint64 = 1 << (iota + 8)
+			fRootDropped
+		)
 		ex2.OnInstr = func(in ssa.Instruction, st *PState) bool {
 			if cc := callOf(in); cc != nil {
 				if f := cc.StaticCallee(); f != nil && f.Pkg != nil && f.Pkg.Pkg.Path() == "sync" && f.Name() == "Wait" {
-					waited = true
+					st.Flags |= fWaited
 				}
-				if cc.IsInvoke() && callsIfaceMethod(cc, a.DirUnlock) && !waited {
-					p2 = append(p2, "the lock is released before the background goroutines were waited for")
+				if cc.IsInvoke() && callsIfaceMethod(cc, a.DirUnlock) && st.Flags&fWaited == 0 {
+					p2 = append(p2, "the lock is released at "+c.Pos(in.Pos())+" on a path on which the background goroutines were not waited for")
+				}
+				// the root is dropped: a call that installs a nil root (and closes the previous one)
+				if f := cc.StaticCallee(); f != nil && f.Blocks != nil && len(storesToField(f, a.WRoot)) > 0 {
+					for i, arg := range cc.Args {
+						if i < len(f.Params) && namedOf(f.Params[i].Type()) == a.Snapshot && isNilConst(arg) {
+							st.Flags |= fRootDropped
+						}
+					}
 				}
 			}
 			return true
@@ -788,9 +799,12 @@ func ruleC11R5(c *Ctx) {
 			if st.Flags&fUnlocked == 0 {
 				p2 = append(p2, "a path returns at "+c.Pos(r.Pos())+" without Directory.Unlock")
 			}
+			if st.Flags&fRootDropped == 0 {
+				p2 = append(p2, "a path returns at "+c.Pos(r.Pos())+" without dropping the root snapshot: the segments it loaded stay open and share-locked (also when OpenWriter closes a writer it gave up on after loading the snapshots)")
+			}
 		}
 		ex2.Run()
-		c.Check(len(p2) == 0 && !ex2.Exceeded, "close releases the directory lock in "+FuncName(fn), c.Pos(fn.Pos()), "Unlock on every path, after asyncTasks.Wait()", uniqJoin(p2))
+		c.Check(len(p2) == 0 && !ex2.Exceeded, "close releases the directory lock in "+FuncName(fn), c.Pos(fn.Pos()), "Unlock on every path, after asyncTasks.Wait(); the root is dropped on every path", uniqJoin(p2))
 	}
 }
 
